@@ -539,19 +539,20 @@ def walk_rules(case, a):
     if any(s is None for s in states):
         return "the walk panicked"
     sec = next(o for o in ops if o[0] == "open")[1]
-    s = {"A": 0, "N": 1, "R": 2, "Q": -1}[sec]
+    s = {"A": 0, "N": 1, "R": 2, "O": 2, "Q": -1}[sec]
+    with_opt = sec == "O"      # the OPT-including walk: the OPT pseudo-record (root name) is an ordinary element
     m0 = refdec.decode(_hex(init))
 
     def recname(r):
         return refdec.name_text_exact(r.name).hex() or "-"
-    original = [recname(r) for r in m0.secs[s] if r.typ != 41] if s >= 0 else [refdec.name_text_exact(m0.qname).hex()]
+    original = [recname(r) for r in m0.secs[s] if with_opt or r.typ != 41] if s >= 0 else [refdec.name_text_exact(m0.qname).hex()]
     deleted = []
     current = None
     yielded = []
     for i, op in enumerate(ops):
         st = states[i]
         if op[0] == "name" and st["res"].startswith("name:"):
-            current = st["res"][5:]
+            current = st["res"][5:] or "-"
             yielded.append(current)
             if current in deleted:
                 return "record %s was yielded again after it had been deleted" % bytes.fromhex(current).decode("latin1")
@@ -562,7 +563,7 @@ def walk_rules(case, a):
             current = None
     survivors = [n for n in original if n not in deleted]
     mf = lax_decode(states[-1]["bytes"])
-    final = [recname(r) for r in mf.secs[s] if r.typ != 41] if s >= 0 else ([] if getattr(mf, "noq", False) else [refdec.name_text_exact(mf.qname).hex()])
+    final = [recname(r) for r in mf.secs[s] if with_opt or r.typ != 41] if s >= 0 else ([] if getattr(mf, "noq", False) else [refdec.name_text_exact(mf.qname).hex()])
     if final != survivors:
         return "section holds %s after the walk, the survivors in order are %s" % (final, survivors)
     for n in survivors:
@@ -572,7 +573,7 @@ def walk_rules(case, a):
     total = len(mf.secs[s]) if s >= 0 else (0 if getattr(mf, "noq", False) else 1)
     if cnt != total:
         return "count %d does not match the %d records present" % (cnt, total)
-    key = {"A": "an", "N": "ns", "R": "ar", "Q": "q"}[sec]
+    key = {"A": "an", "N": "ns", "R": "ar", "O": "ar", "Q": "q"}[sec]
     if total == 0 and states[-1]["view"].get(key) != "-":
         return "the emptied section does not read as absent"
     if sec == "Q" and total == 0 and states[-1]["c"] != "-":
